@@ -29,7 +29,8 @@ from .base import (
     ValidationError,
 )
 from ..config import Config
-from ..errors import StorageError
+from ..errors import StorageError, AuthenticationError
+from ..auth import Action
 
 
 # ids: b'\x00<32 bytes of id>'
@@ -654,6 +655,11 @@ class LMDBStorage(BaseStorage):
             raise StorageError("invalid: Bad JSON")
 
         await self.validate_event(event, Config)
+        # check authentication
+        if self.authenticator and not await self.authenticator.can_do(
+            auth_token, Action.save.value, event
+        ):
+            raise AuthenticationError("restricted: permission denied")
 
         if not event.is_ephemeral:
             self.writer_queue.put(("add", [event]))
